@@ -9,7 +9,7 @@
 //     two), l.bloom_shift < 64, and GnuHashLayout::allocate reserves exactly
 //     16 + 8*bloom_count + 4*bucket_count + 4*num_defs bytes - the bytes write_gnu_hash_tables
 //     consumes (its `debug_assert_eq!(rest.len(), 0)`);
-//   (order, BOUNDED n <= 3) afterwards the definitions are a permutation of the input ordered by
+//   (order, BOUNDED n <= 2) afterwards the definitions are a permutation of the input ordered by
 //     bucket_for_hash(hash) - the precondition of write_gnu_hash_tables' contract.
 // The sort is rayon's par_sort_unstable_by_key, which Kani cannot run (threads).  It is replaced
 // via #[kani::stub] on rayon's internal par_quicksort: by a no-op in the geometry obligation
@@ -86,10 +86,10 @@ static NAMES: [&[u8]; 3] = [b"a", b"b", b"c"];
 #[kani::proof]
 #[kani::unwind(6)]
 #[kani::stub(rayon::slice::sort::par_quicksort, sequential_sort)]
-fn c08_definitions_are_ordered_by_bucket_up_to_3() {
+fn c08_definitions_are_ordered_by_bucket_up_to_2() {
     let args = crate::args::elf::__verif_elf_args::partial_args_hash_style(HashStyle::Gnu);
     let n: usize = kani::any();
-    kani::assume(n <= 3);
+    kani::assume(n <= 2);
     let hashes: [u32; 3] = kani::any();
     let mut defs: Vec<DynamicSymbolDefinition<'static, Elf>> = Vec::with_capacity(3);
     let mut i = 0;
